@@ -52,6 +52,11 @@ func c15Gen(r *rand.Rand, tier string) any {
 		}
 	shared:
 	}
+	if r.IntN(5) == 0 && len(sc.Spec.Targets) > 0 {
+		// a legal value that is small to encode and astronomically large to walk
+		t := &sc.Spec.Targets[r.IntN(len(sc.Spec.Targets))]
+		t.Refs = append(t.Refs, refSpec{Kind: "dag", Val: valueSpec{Kind: "int", V: r.IntN(40)}})
+	}
 	shadow := sc.clone().Spec
 	label := pickLabel(r, shadow)
 	sc.Ops = append(sc.Ops, opSpec{Op: "build", Label: label})
@@ -378,7 +383,14 @@ func c15Exec(scAny any, c *simcheck.Ctx) *simcheck.Violation {
 		if op.Op == "build" && h.p.resolve(op.Label) == nil {
 			return nil
 		}
-		res := h.build(i, op, h.pc, nil)
+		pc := h.pc
+		pc.WatchdogS = 30
+		res := h.build(i, op, pc, nil)
+		if res.Sim.Stuck {
+			v := simcheck.V("decode-hang", "building the intact project did not finish within 30 s of real time: encoding or decoding a legal value does not terminate")
+			v.Fatal = true
+			return v
+		}
 		if procFailure(res) != nil || res.LoadErr != nil || res.RunErr != nil {
 			c.St.Count("prefix_failed", 1)
 			return nil
